@@ -5,6 +5,17 @@ as the documentation of `Blueprint::domain` says and as pavex_bp_schema records 
 import checks.c07 as c07
 
 
+class _AsC07:
+    """c07.classify_known reads the recorded findings of the property it is called for: here, C07's (path-level routing
+    findings such as a request for the bare prefix of a nested blueprint; a request that shows one of them is not judged)"""
+
+    def __init__(self, R):
+        self.kf = R.kf
+
+    def known_findings(self):
+        return [f for f in self.kf.get("findings", []) if f["property"] == "C07" and f.get("status") == "known"]
+
+
 def domain_stage(R, pid):
     import e2e_stage
     obs, info, rt = e2e_stage.get_runtime(R)
@@ -53,7 +64,7 @@ def domain_stage(R, pid):
             if got in want:
                 continue
             j = c07.judge(app, req, ob)
-            if j and c07.classify_known(R, app, spec, req, ob, j[0], j[1]) is not None:
+            if j and c07.classify_known(_AsC07(R), app, spec, req, ob, j[0], j[1]) is not None:
                 stats["skipped_known_c07_findings"] += 1
                 continue
             ok = False
